@@ -82,7 +82,8 @@ def project(snap, dirmap, inst, pre, exp=None):
         if parts[0] == "o" and p.endswith(".txt"):
             fid = path_id(p); final.append(fid)
             txt = v.get("text") or ""
-            kind[fid] = "complete" if txt.endswith("END %s\n" % fid) else ("user" if fid in pre and txt.startswith("USER") else "partial")
+            whole = txt.startswith("BEGIN %s\n" % fid) and txt.endswith("END %s\n" % fid) and txt.count("BEGIN %s\n" % fid) == 1
+            kind[fid] = "complete" if whole else ("user" if fid in pre and (txt.startswith("USER") or txt == "") else "partial")     # partial: not the output of ONE successful command
         elif parts[0] == "o" and p.endswith(".audit.json"):
             fid = path_id(p[:-len(".audit.json")])
             audits.append(fid)
